@@ -1,6 +1,6 @@
 --------------------------- MODULE ExportLayouts ---------------------------
 EXTENDS Layouts, Json, TLC
-ASSUME PrintT(<<"LAYOUTS", ToJson(Export)>>)
+ASSUME PrintT(<<"LAYOUTS", ToJson(LayoutExport)>>)
 VARIABLE x
 Init == x = 0
 Next == UNCHANGED x
